@@ -428,7 +428,7 @@ package jet
 //@   ensures PInv(t) && result != nil && WFTag(result)
 
 //@ func (*Template).parseTemplate
-//@   props C02 C03 C08 C20
+//@   props C02 C03 C08 C20 C15
 //@   requires PInv(t) && len(t.imports) == 0 && t.extends == nil
 //@   modifies @Parse, t.Root, t.extends, t.imports
 //@   loop 0 invariant PInv(t) && t.Root != nil && fresh(t.Root)
@@ -436,6 +436,9 @@ package jet
 //@   loop 0 invariant [whitespace-next-to-a-clause-is-dropped] {C03} t.extends != nil || len(t.imports) > 0 ==> len(leading) == 0
 //@   loop 0 invariant [nothing-is-emitted-before-the-clauses-are-read] {C03} len(t.Root.Nodes) == 0
 //@   callsite (*Template).newText 0 requires [kept-whitespace-is-rendered-verbatim] {C03} text == caller.leading[caller.i].val && pos == caller.leading[caller.i].pos
+//@   callsite (*Set).getSiblingTemplate 0 requires [extends-resolves-the-name-as-written-against-this-template] {C15,C08} templatePath == lastret("(*Template).expectString", 0) && siblingPath == caller.t.Name && cacheAfterParsing == caller.cacheAfterParsing && s == caller.t.set
+//@   callsite (*Set).getSiblingTemplate 1 requires [import-resolves-the-name-as-written-against-this-template] {C15,C08} templatePath == lastret("(*Template).expectString", 0) && siblingPath == caller.t.Name && cacheAfterParsing == caller.cacheAfterParsing && s == caller.t.set
+//@   callsite (*Set).getSiblingTemplate count 2 {C15,C08}
 //@   loop 0 invariant [imports-non-nil] forall(i, 0, len(t.imports), t.imports[i] != nil)
 //@   loop 1 invariant PInv(t) && t.Root != nil && fresh(t.Root)
 //@   loop 1 invariant [kept-whitespace-is-emitted-in-order] {C03} len(t.Root.Nodes) == rangeindex + 1
